@@ -389,7 +389,11 @@ def _enumerate_specs(tier):  # noqa: C901
             yield "w_join", multi, s
         for s in variadic_specs(2):
             yield "variadic", ("dataclass",), s
+        for s in pep604_specs():
+            yield "pep604", ("dataclass", "attrs", "typeddict"), s
     else:
+        for s in pep604_specs():
+            yield "pep604", ("dataclass", "attrs", "typeddict"), s
         for s in chains("M", []):
             yield "single", single, s
         for s in chains("M", ["L"]):
@@ -469,6 +473,44 @@ def render_param(p):
     return "*Ts" if p == "Ts" else p
 
 
+def render604(t):
+    """the same annotation in the PEP 604 / PEP 585 spelling: Optional[List[T]] is written ``list[T] | None`` (a
+    types.UnionType holding a type variable, not a typing.Union)"""
+    h = t[0]
+    if h == "Optional":
+        return f"{render604(t[1])} | None"
+    if h == "List":
+        return f"list[{render604(t[1])}]"
+    if h == "Dict":
+        return f"dict[str, {render604(t[1])}]"
+    if h == "Tuple" and len(t) > 1 and all(i[0] not in ("unpack", "unpack_tuple", "unbounded") for i in t[1:]):
+        return "tuple[" + ", ".join(render604(i) for i in t[1:]) + "]"
+    return rg.render(t)
+
+
+def pep604_specs():
+    """one- and two-level hierarchies whose annotations are unions of parametrised builtin generics in the `|` spelling"""
+    T, U = var("T"), var("U")
+    roots = [
+        (["T"], [("x", Opt_(List_(T)))]),
+        (["T"], [("x", Opt_(Dict_(T)))]),
+        (["T", "U"], [("x", Opt_(List_(T))), ("y", Opt_(Tup_(U, INT)))]),
+        (["T"], [("x", List_(Opt_(List_(T))))]),
+        (["T"], [("x", Opt_(T)), ("k", Opt_(List_(INT)))]),
+    ]
+    for generic, fields in roots:
+        root = mk_class("A0", generic, [], fields)
+        yield {"classes": [root], "pep604": True}
+        for args in ([INT], [List_(INT)], [T], [U]) if len(generic) == 1 else ([INT, STR], [T, INT], [U, T]):
+            used = []
+            for a in args:
+                for v in rg.vars_of(a):
+                    if v not in used:
+                        used.append(v)
+            child = mk_class("A1", used or None, [("A0", args)], [("z", Opt_(List_(var(used[0]))))] if used else [])
+            yield {"classes": [root, child], "pep604": True}
+
+
 def render_source(spec, kind):
     lines = []
     # two slotted attrs classes with fields cannot be combined by multiple inheritance (CPython lay-out conflict)
@@ -498,7 +540,8 @@ def render_source(spec, kind):
             lines.append(attrs_deco)
         lines.append(f'class {c["name"]}' + (f'({", ".join(bases)})' if bases else "") + ":")
         if c["fields"]:
-            lines.extend(f"    {n}: {rg.render(rg.freeze(t))}" for n, t in c["fields"])
+            rend = render604 if spec.get("pep604") else rg.render
+            lines.extend(f"    {n}: {rend(rg.freeze(t))}" for n, t in c["fields"])
         else:
             lines.append("    pass")
     return "\n".join(lines) + "\n"
@@ -944,12 +987,85 @@ def fold_violations(report):
     report.violations = out
 
 
+TWO_MODULE_SRC = """
+from dataclasses import dataclass
+from typing import Generic, List, Optional, TypeVar
+
+@dataclass
+class Item:
+    {field}: {ftype}
+
+B = TypeVar("B", bound="Item")
+C = TypeVar("C", "Item", int)
+
+@dataclass
+class Holder(Generic[B]):
+    x: B
+
+@dataclass
+class Bag(Generic[B]):
+    items: List[B]
+
+@dataclass
+class Either(Generic[C]):
+    x: C
+"""
+
+
+def leg_string_bounds(report):
+    """the documented implicit parameter of a bare class is the bound / the union of constraints of its type variable; written as
+    a string it names a class of the module that defines the TypeVar.  Two modules use the same text for different classes: each
+    bare model must use its own module's class, in whatever order the modules are first used (all orders, fresh modules each)."""
+    import itertools
+    from adaptix import Retort
+    from adaptix.load_error import LoadError
+    mods_spec = {"m1": ("a", "int", {"a": 1}), "m2": ("b", "str", {"b": "s"})}
+    for order in itertools.permutations(mods_spec):
+        for model, wrap in (("Holder", lambda d: {"x": d}), ("Bag", lambda d: {"items": [d]}), ("Either", lambda d: {"x": d})):
+            mods = {}
+            for mname, (field, ftype, _) in mods_spec.items():
+                mod = types.ModuleType(f"c16_bound_{mname}")
+                sys.modules[mod.__name__] = mod
+                exec(TWO_MODULE_SRC.format(field=field, ftype=ftype), mod.__dict__)  # noqa: S102
+                mods[mname] = mod
+            retort = Retort()
+            for mname in order:
+                mod, (_, _, good) = mods[mname], mods_spec[mname]
+                other_good = mods_spec["m2" if mname == "m1" else "m1"][2]
+                cls = getattr(mod, model)
+                case = {"leg": "string_bounds", "order": list(order), "model": model, "module": mname}
+                report.case(("string_bounds", order, model, mname), nontrivial=True, sample=case)
+                report.evaluations += 2
+                try:
+                    obj = retort.load(wrap(good), cls)
+                    inner = obj.x if model != "Bag" else obj.items[0]
+                    ok = type(inner) is mod.Item and retort.dump(obj, cls) == wrap(good)
+                    what = f"loaded {obj!r}"
+                except Exception as e:  # noqa: BLE001
+                    ok, what = False, f"raised {type(e).__name__}: {str(e)[:100]}"
+                if not ok:
+                    report.violation({"check": "C16.string_bounds", "problem": "own_bound_not_used", "model": model},
+                                     f"bare {model} of module {mname} (modules first used in order {list(order)}): data fitting the module's "
+                                     f"own Item {wrap(good)!r}: {what}", case)
+                try:
+                    retort.load(wrap(other_good), cls)
+                    report.violation({"check": "C16.string_bounds", "problem": "foreign_bound_accepted", "model": model},
+                                     f"bare {model} of module {mname} (order {list(order)}) accepts {wrap(other_good)!r}, which fits only the "
+                                     f"class called Item in the OTHER module", case)
+                except LoadError:
+                    report.outcome("string_bounds:foreign rejected")
+                except Exception as e:  # noqa: BLE001
+                    report.violation({"check": "C16.string_bounds", "problem": "error", "model": model},
+                                     f"bare {model} of module {mname}: {type(e).__name__}: {str(e)[:100]}", case)
+
+
 def run(tier):
     report = Report()
     n = sum(1 for _ in enumerate_specs(tier))
     report.count("specs_enumerated", n)
     parallel.run_shards(shard, [(tier, i) for i in range(N_SHARDS)], report=report)
     fold_violations(report)
+    leg_string_bounds(report)
     return report
 
 
@@ -957,7 +1073,7 @@ def SANITY(report, tier):  # noqa: N802
     problems = []
     for kind in KINDS_ALL:
         # (a kind whose oracle already disagreed - violations recorded - did have its chance to disagree)
-        disagreed = any(v["sig"]["kind"] == kind for v in report.violations.values())
+        disagreed = any(v["sig"].get("kind") == kind for v in report.violations.values())
         if report.outcomes[f"{kind}:created"] == 0 and not disagreed:
             problems.append(f"no loader was ever created for kind {kind}")
         if report.outcomes[f"{kind}:other_substitution_rejected"] == 0 and not disagreed:
